@@ -142,6 +142,9 @@ func singleWriterRouting(r *core.Run) {
 		}
 		n := counter{}
 		for _, caller := range p.FuncList {
+			if caller == fn {
+				continue // "start over" inside the function itself: judged at its callers
+			}
 			if caller.SSA == nil || skipPkg(caller) {
 				continue
 			}
